@@ -217,6 +217,14 @@ def loop_headers(fn):
     return hdr
 
 
+class Mismatch(Exception):
+    """a residue was constructed that the client's `on_residue` refuses: (linear form, location)"""
+
+    def __init__(self, lin, loc):
+        Exception.__init__(self, "unexpected residue")
+        self.lin, self.loc = lin, loc
+
+
 class Case:
     """one outcome of a call: the value and the bound (constant-free linear form, (lo, hi)) that holds in this case"""
     __slots__ = ("v", "fact")
@@ -234,6 +242,7 @@ class LinInterp:
         self.expand = {}
         self.qinfo = {}        # Qk[L] -> (k, L)
         self.facts = {}        # path facts: lin_key(N) -> (lo, hi) for a constant-free linear form N
+        self.on_residue = None # client predicate on every residue constructed (canonical form, path facts); False aborts with Mismatch
         self.constructed = []  # (adt, lo, hi, location) of every single-integer struct built on some path
         self.events = []       # (kind, location, text): possible overflows of checked arithmetic, imprecise branches
         self.max_states, self.max_steps = max_states, max_steps
@@ -714,7 +723,10 @@ class LinInterp:
             if rv.get("agg") == "adt":
                 if any(rv["adt"].endswith(a) for a in self.residue_adts) and len(ops) == 1 and isinstance(ops[0], IV):
                     v = ops[0]
-                    ops = [IV(self.canon(self.L(v)), 0, ty_rng("u64")[1], True)]
+                    cl = self.canon(self.L(v))
+                    if self.on_residue is not None and cl is not None and not self.on_residue(cl, env.get("#facts")):
+                        raise Mismatch(cl, loc)
+                    ops = [IV(cl, 0, ty_rng("u64")[1], True)]
                 if len(ops) == 1 and isinstance(ops[0], IV):
                     self.constructed.append((rv["adt"], ops[0].lo, ops[0].hi, loc))
                 return ("adt", rv.get("variant", 0), ops)
@@ -820,7 +832,7 @@ class LinInterp:
         o = f.get(fk, (None, None))
         nl = bnd[0] if o[0] is None else (o[0] if bnd[0] is None else max(o[0], bnd[0]))
         nh = bnd[1] if o[1] is None else (o[1] if bnd[1] is None else min(o[1], bnd[1]))
-        f[fk] = (nl, nh)
+        f[fk] = (nl, nh, frozenset(x for x in n if x != ""))
         saved, self.facts = self.facts, f
         try:
             lo_, hi_ = self.lin_rng(n)
@@ -909,6 +921,19 @@ class LinInterp:
                                 if r not in keep:
                                     keep.add(r)
                                     more = True
+                    fc = env.get("#facts")
+                    if fc:
+                        # a fact whose atoms no live value mentions any more cannot influence the rest of the path: forget it, so that the
+                        # carry cases of a finished iteration merge again
+                        live_atoms = set()
+                        for l in keep:
+                            if l != "#facts":
+                                _atoms_in(env.get(l), live_atoms)
+                        fc2 = {k_: v_ for k_, v_ in fc.items() if v_[2] & live_atoms}
+                        if len(fc2) != len(fc):
+                            env = dict(env)
+                            env["#facts"] = fc2
+                            self.facts = fc2
                     key = (b, imp, tuple(sorted(((repr(l), self.freeze(env[l])) for l in keep), key=lambda x: x[0])))
                     if key in seen:
                         self.stats["merged"] += 1
@@ -1014,6 +1039,18 @@ class LinInterp:
                     continue
                 break   # unreachable / resume
         return outs
+
+
+def _atoms_in(v, out):
+    if isinstance(v, IV):
+        if v.lin:
+            out.update(x for x in v.lin if x != "")
+        if v.cond:
+            out.update(x for x in v.cond[0] if x != "")
+    elif isinstance(v, (list, tuple)):
+        for x in v:
+            if isinstance(x, (IV, list, tuple)):
+                _atoms_in(x, out)
 
 
 def _refs_in(v):
